@@ -11,7 +11,24 @@ import SimpleDnsModel.Model.Pipeline
 import SimpleDnsModel.Model.Observers
 import SimpleDnsModel.Spec.NameDecode
 import SimpleDnsModel.Spec.Rfc1035Header
+import SimpleDnsModel.Model.Svcb
+import SimpleDnsModel.Model.Api
 open Dns Dns.Text
+
+/-- one SVCB builder call: `p <key> <hex>` | `m <n> <key>*` | `a <n> <hex>*` | `d` | `o <port>` |
+`4 <n> <ip>*` | `6 <n> <ip>*` -/
+def pSvcOp : P SvcOp
+  | "p" :: ts => do
+    let (k, ts) ← pNat ts
+    let (v, ts) ← pBytes ts
+    pure (.param k v, ts)
+  | "m" :: ts => do let (ks, ts) ← pCounted pNat ts; pure (.mandatory ks, ts)
+  | "a" :: ts => do let (ids, ts) ← pCounted pBytes ts; pure (.alpn ids, ts)
+  | "d" :: ts => some (.noDefaultAlpn, ts)
+  | "o" :: ts => do let (p, ts) ← pNat ts; pure (.port p, ts)
+  | "4" :: ts => do let (ips, ts) ← pCounted pNat ts; pure (.ipv4 ips, ts)
+  | "6" :: ts => do let (ips, ts) ← pCounted pNat ts; pure (.ipv6 ips, ts)
+  | _ => none
 
 def words (line : String) : List String :=
   (line.trimAscii.toString.splitOn " ").filter (· ≠ "")
@@ -259,6 +276,37 @@ def answer (ts : List String) : String :=
         | some now => showSorted ((Mdns.known s service now).map showInstance)
         | none => "bad-op"
       | _ => "bad-op"
+    | _ => "bad-op"
+  | "svcb" :: code :: prio :: rest =>
+    match code.toNat?, prio.toNat?, pName rest with
+    | some code, some prio, some (target, ts) =>
+      match pCounted pSvcOp ts with
+      | some (ops, []) =>
+        let (ps, oks) := Svcb.run ops
+        let rd : RData := .flat code [.int prio, .name target, .tlvs ps]
+        "ok " ++ String.ofList (oks.map (fun b => if b then '1' else '0')) ++ " " ++ showRData rd ++ " " ++
+          showOut hexOfBytes (RData.write rd)
+      | _ => "bad-op"
+    | _, _, _ => "bad-op"
+  | ["api", "newq", id] =>
+    match id.toNat? with
+    | some id => showPacket (Packet.newQuery id) ++ " " ++ showOut hexOfBytes (Packet.newQuery id).build
+    | none => "bad-op"
+  | ["api", "newr", id] =>
+    match id.toNat? with
+    | some id => showPacket (Packet.newReply id) ++ " " ++ showOut hexOfBytes (Packet.newReply id).build
+    | none => "bad-op"
+  | "api" :: "reply" :: rest =>
+    match pPacket rest with
+    | some (p, []) => showPacket p.intoReply
+    | _ => "bad-op"
+  | "api" :: "setid" :: id :: rest =>
+    match id.toNat?, pPacket rest with
+    | some id, some (p, []) => showPacket (p.setId id)
+    | _, _ => "bad-op"
+  | "api" :: "flush" :: rest =>
+    match pRR rest with
+    | some (r, []) => showRR r.toCacheFlush
     | _ => "bad-op"
   | "spec.rdata" :: rest =>
     match pRData rest with
